@@ -30,9 +30,9 @@ ENGINES = {
         "instr": ["chord:1:node_state.go=2", "kv/memory:2", "kv/aof:1", "util/promise:1", "util/atomic:1"],
         "inject": {"chord/zz_verif_export.go": "inject/chord/zz_verif_export.go"},
         "real": ["chord/* (instrumented copy of the working tree)", "chord/remote.go + twirp client/server + chord.Server + spec/rpc error mapping",
-                 "kv/memory (instrumented, every atomic/skipmap access a scheduling point)", "spec/chord retry wrapper (avast/retry-go, real)"],
+                 "kv/memory (instrumented, every atomic/skipmap access a scheduling point)", "kv/aof + tidwall/wal logic as the store of about a third of the nodes in C03/C05/C10/C19 runs", "spec/chord retry wrapper (avast/retry-go, real)"],
         "stub": ["HTTP/QUIC wire -> simnet in-memory HTTPClient (15 lines of rpc.DynamicChordClient restated)",
-                 "clock -> testing/synctest fake clock", "rtt recorder -> no-op"],
+                 "clock -> testing/synctest fake clock", "rtt recorder -> no-op", "file system under tidwall/wal -> simfs in-memory disk"],
     },
 }
 
@@ -81,6 +81,16 @@ ENGINES["gw"] = {
     "inject": {"gateway/zz_verif_export.go": "inject/gateway/zz_verif_export.go", "tun/client/ui/build/index.html": "inject/client/index.html"},
     "real": ["gateway: proxyHandler (httputil.ReverseProxy + transport + overlayDialer), errorHandler, forwardTCP, httpConnect, extractHostname; spec/tun status frames and Pipe"],
     "stub": ["tun.Server -> scripted (returns each error class, wrapped 0-2 times, or an in-memory connection)", "streams -> net.Pipe", "clock -> testing/synctest fake clock"],
+}
+
+ENGINES["quic"] = {
+    "pkg": "./harness/quic",
+    "instr": ["overlay:2", "util/atomic:1", "util/bufconn:1", "util/acceptor:1"],
+    "inject": {"overlay/zz_verif_export.go": "inject/overlay/zz_verif_export.go"},
+    "replace": {"github.com/quic-go/quic-go": "stubs/quic-go"},
+    "real": ["overlay: reuseConnection (cache-state negotiation), getCachedConnection with its retry, handleIncoming / handleOutgoing, handlePeer, reapPeer and the reaper, DialStream / streamHandler stream hand-off, the keyed mutex of util/atomic; spec/rpc framing"],
+    "stub": ["github.com/quic-go/quic-go -> sim/stubs/quic-go: in-memory connections and streams with the exported names overlay uses (no wire, no TLS, no flow control); a close reaches the other end after a harness-decided delay",
+             "clock -> testing/synctest fake clock"],
 }
 
 def ring(level="exploration", quick=240, thorough=6000, note=""):
@@ -149,10 +159,12 @@ PROPS.update({
 })
 
 PROPS.update({
+    "C41": {"engine": "quic", "level": "exploration", "quick": 1600, "thorough": 100000},
     "C36": {"engine": "gw", "level": "fault_enumeration", "quick": 297, "thorough": 297},
 })
 
 RULES = {
+    "quic": "one evaluation = one seeded plan (pre-existing cache state: none / one side dialled first / one end of that connection closed locally; 2-4 dials from both sides at seeded offsets; close propagation delay; dial duration) executed by two real overlay.QUIC transports under a seeded schedule; distinct = distinct (plan, (task, yield site) sequence); non-trivial = the negotiation closed a connection or more than one dial succeeded",
     "gw": "one evaluation = one cell of {HTTP, raw TCP, CONNECT} x 11 tunnel outcomes (not found, client not connected, no direct path, timeout error, deadline, other error, connection that never answers, success, undecodable / no-direct / error status frame) x error wrapped 0-2 times x 3 host spellings; the seed is the cell index; distinct = distinct cells",
     "ctl": "one evaluation = one seeded world (1-3 tunnel servers on a real chord ring, 2-5 simulated clients of different kinds, a seeded operation list) executed under a seeded schedule; distinct = distinct (task, yield site) sequences; non-trivial = the world booted and the scenario ran to its end",
     "client": "C45: one evaluation = one seeded client configuration (certificate, key, tunnels) saved 1-3 times with changed content on the simulated disk; every operation boundary of every save is a crash image that is loaded with the real NewConfig; distinct = distinct configurations. C43/C44/C50: one evaluation = one seeded plan (tunnel lists and changes / registered sets and RPC faults / measurement histories) executed by the real tun/client.Client under a seeded schedule; distinct = distinct (plan, (task, yield site) sequence); non-trivial = a link overlapped a configuration change (C44) / a tunnel needed a hostname (C43) / more than one gateway was returned (C50)",
@@ -251,6 +263,10 @@ def build(engine, tmp):
     shutil.copytree(os.path.join(VERIF, "sim"), sim, ignore=shutil.ignore_patterns("*.test", "*.jsonl"))
     gen_gomod(sim)
     prepare_third_party(tmp, sim)
+    if e.get("replace"):
+        with open(os.path.join(sim, "go.mod"), "a") as f:
+            for mod, rel in e["replace"].items():
+                f.write("\nreplace %s => %s\n" % (mod, os.path.join(sim, rel)))
     bdir = os.path.join(tmp, "build")
     os.makedirs(bdir)
     extra = {"Replace": {os.path.join(REPO, k): os.path.join(sim, v) for k, v in e.get("inject", {}).items()}}
